@@ -301,6 +301,7 @@ type faultSpec struct {
 	Op      op   // the operation under fault
 	LimitAt int  // RLIMIT_FSIZE in bytes (-1 = none)
 	Marker  bool // touch marker files around the operation (for the strace pass)
+	Linked  bool // the settings file has a second hard link (a backup tool's snapshot) when Op runs
 	Follow  *op  // applied in the same process after Op, without any fault; the settings file as it was in between is copied to <Dir>/between
 }
 
@@ -332,6 +333,9 @@ func faultChild(args []string) int {
 			fmt.Printf("{\"setup_error\":%q}\n", err.Error())
 			return 0
 		}
+	}
+	if spec.Linked {
+		os.Link(path, path+".snapshot")
 	}
 	if spec.LimitAt >= 0 {
 		// SIGXFSZ is ignored by Go programs that do not ask for it; the write then fails with EFBIG
@@ -515,7 +519,7 @@ func runWriteFault(c *harness.Ctx) harness.Result {
 		// the follow-up runs in the same process for every other position (state kept in memory
 		// by the failed operation would show there) and in a fresh process otherwise
 		sameProc := ki%2 == 1
-		fs := faultSpec{Dir: dir, Old: old, Op: o, LimitAt: k}
+		fs := faultSpec{Dir: dir, Old: old, Op: o, LimitAt: k, Linked: ki%3 == 2}
 		if sameProc {
 			fs.Follow = &fop
 		}
@@ -600,7 +604,8 @@ func runKill(c *harness.Ctx) harness.Result {
 	tdir := filepath.Join(c.Tmp, "trace")
 	os.MkdirAll(tdir, 0o755)
 	tfile := filepath.Join(c.Tmp, "trace.txt")
-	if _, errs, err := runChild(faultSpec{Dir: tdir, Old: old, Op: o, LimitAt: -1, Marker: true}, []string{"strace", "-f", "-o", tfile, "-e", "trace=" + calls}); err != nil {
+	linked := c.Index%2 == 1
+	if _, errs, err := runChild(faultSpec{Dir: tdir, Old: old, Op: o, LimitAt: -1, Marker: true, Linked: linked}, []string{"strace", "-f", "-o", tfile, "-e", "trace=" + calls}); err != nil {
 		return harness.Result{Verdict: harness.Inconclusive, Detail: fmt.Sprintf("strace tracing pass failed: %v %s", err, harness.Trunc(errs, 500))}
 	}
 	tb, _ := os.ReadFile(tfile)
@@ -640,7 +645,7 @@ func runKill(c *harness.Ctx) harness.Result {
 	for _, p := range points {
 		dir := filepath.Join(c.Tmp, fmt.Sprintf("kill-%s-%d", p.name, p.ord))
 		os.MkdirAll(dir, 0o755)
-		_, _, _ = runChild(faultSpec{Dir: dir, Old: old, Op: o, LimitAt: -1, Marker: true}, []string{"strace", "-f", "-o", filepath.Join(dir, "trace.txt"), "-e", "trace=" + calls, "-e", fmt.Sprintf("inject=%s:signal=SIGKILL:when=%d", p.name, p.ord)})
+		_, _, _ = runChild(faultSpec{Dir: dir, Old: old, Op: o, LimitAt: -1, Marker: true, Linked: linked}, []string{"strace", "-f", "-o", filepath.Join(dir, "trace.txt"), "-e", "trace=" + calls, "-e", fmt.Sprintf("inject=%s:signal=SIGKILL:when=%d", p.name, p.ord)})
 		c.Stat("kill_points", 1)
 		c.Seen(p.name)
 		if _, err := os.Stat(filepath.Join(dir, "marker-end")); err == nil {
@@ -667,7 +672,7 @@ func runKill(c *harness.Ctx) harness.Result {
 			errno := []string{"EMFILE", "EACCES", "EIO", "ENFILE"}[(p.ord+c.Index)%4]
 			edir := filepath.Join(c.Tmp, fmt.Sprintf("err-%s-%d", p.name, p.ord))
 			os.MkdirAll(edir, 0o755)
-			out, _, _ := runChild(faultSpec{Dir: edir, Old: old, Op: o, LimitAt: -1, Marker: true}, []string{"strace", "-f", "-o", filepath.Join(edir, "trace.txt"), "-e", "trace=" + calls, "-e", fmt.Sprintf("inject=%s:error=%s:when=%d", p.name, errno, p.ord)})
+			out, _, _ := runChild(faultSpec{Dir: edir, Old: old, Op: o, LimitAt: -1, Marker: true, Linked: linked}, []string{"strace", "-f", "-o", filepath.Join(edir, "trace.txt"), "-e", "trace=" + calls, "-e", fmt.Sprintf("inject=%s:error=%s:when=%d", p.name, errno, p.ord)})
 			var rep struct {
 				Error string `json:"error"`
 			}
